@@ -49,10 +49,10 @@ pub fn gen(tier: &str, seed: u64, out: &mut dyn Write) {
             }
         }
         // crafted relative paths
-        for craft in 1..=9 {
+        for craft in 1..=10 {
             for pre in [0u32, 2, 3, 5] {
                 let rich = rng.below(32) as u32;
-                let load = if craft >= 5 && craft <= 7 { 1 } else { rng.below(2) as u32 };
+                let load = if (craft >= 5 && craft <= 7) || craft == 10 { 1 } else { rng.below(2) as u32 };
                 emit(out, &scratch, &format!("rich={} load={} stores=1 sabot=0 kinds=0 pre={} craft={} e=", rich, load, pre, craft));
             }
         }
